@@ -102,7 +102,7 @@ def run(tier, seed):
     rep = Report(PROP, tier, seed)
     rep.rule = ("BFS over the real setters from a new instance: a state is a setter history, deduplicated by "
                 "(raw assembly_opt byte, classes of four probe lines); every one of the 20 transitions "
-                "(5 setters x {STRICT,NASM,SMART,99}) is taken from every state and compared with the documented "
+                "(5 setters x {STRICT,NASM,SMART,3,-1,99}) is taken from every state and compared with the documented "
                 "semantics; plus all setter sequences up to the depth bound without deduplication and all "
                 "interleaved sequences on two live instances. distinct_nontrivial = distinct (history) cases whose "
                 "last setter has a documented effect")
@@ -132,14 +132,14 @@ def run(tier, seed):
         rep.fail({"class": "statecount"}, ["states"], {"kind": "single", "seq": []},
                  "reachable option states: %d, documented 12" % len(seen))
     # --- all sequences up to depth without deduplication ------------------------------------------------------
-    maxd = 3 if tier == "quick" else 4
+    maxd = 3 if tier == "quick" else 4      # 30 transitions: 27 930 / 837 930 sequences
     for d in range(1, maxd + 1):
         if rep.expired():
             rep.cut_short("sequence depth %d not run" % d)
             break
         seqs = list(itertools.product(TRANS, repeat=d))
         check_single(rep, seqs, "seq%d" % d)
-        rep.distinct_n += sum(1 for q in seqs if q[-1][1] != 99)
+        rep.distinct_n += sum(1 for q in seqs if q[-1][1] in (0, 1, 2))
         rep.bounds["unreduced_sequence_depth"] = d
     # --- two live instances -------------------------------------------------------------------------------
     lab = [(i, s, v) for i in (0, 1) for s, v in TRANS]
